@@ -496,14 +496,15 @@ func (g *G) Natural(ty *m.Type, d int) m.Expr {
 			return g.bin(op, g.trace(g.Natural(m.TStr, d-1)), g.trace(g.Natural(m.TStr, d-1)), m.TBool)
 		case 3, 4:
 			op := []string{"==", "!="}[g.intn("eq", 2)]
-			t := g.Type(1)
+			t := g.Type(1 + g.intn("eqdepth", 2))
 			l := g.Natural(t, d-1)
 			if l == nil {
 				t = m.TNum
 				l = g.Natural(t, d-1)
 			}
 			r := g.Natural(t, d-1)
-			if r == nil {
+			if r == nil || g.chance("sameoperand", 1, 3) {
+				// the same expression written twice: structurally equal values from two source sites
 				r = l
 			}
 			return g.bin(op, g.trace(l), g.trace(r), m.TBool)
